@@ -19,6 +19,7 @@ import OFV.Proofs.C02MajComm
 import OFV.Proofs.C02HermIO
 import OFV.Proofs.C02Matrix
 import OFV.Proofs.C02HermBoson
+import OFV.Proofs.C02HermExact
 
 namespace OFV.C02
 open OFV OFV.Model OFV.Model.C02 OFV.Proofs.C02
@@ -464,6 +465,70 @@ theorem is_hermitian_boson_iff_tol (D : Nat) (hD : 0 < D) (tol : Rat) (ht : 0 < 
         (Proofs.C02.hcBoson_lat D a la)]
     exact hexact t (h t)
   · exact is_hermitian_boson_complete D hD tol ht h1 a hv la
+
+/-! ## `is_hermitian` without the exactness hypothesis: bounded lattice coefficients -/
+
+/-- **`==` is exact on bounded lattice dictionaries**: coefficients on `(1/D)ℤ[i]`, magnitudes `≤ M`,
+`tol·D·M ≤ 1` — then the coefficient test of `isclose` (absolute for one-sided terms, relative to
+`max(1,|x|,|y|)` for shared ones) accepts a term only if the two coefficients are EQUAL. -/
+theorem isclose_exact_on_bounded_lattice (D M : Nat) (hD : 0 < D) (hM : 0 < M) (tol : Rat) (ht : 0 < tol)
+    (h1 : tol * ((D * M : Nat) : Rat) ≤ 1) (X Y : Op)
+    (lX : ∀ e ∈ X, Proofs.C03.Lat D e.2) (lY : ∀ e ∈ Y, Proofs.C03.Lat D e.2)
+    (bX : ∀ t, (Dict.getD X t 0).normSq ≤ (M : Rat) * M)
+    (bY : ∀ t, (Dict.getD Y t 0).normSq ≤ (M : Rat) * M) :
+    isclose tol X Y = true ↔ ∀ t, Dict.getD X t 0 = Dict.getD Y t 0 := by
+  constructor
+  · intro h t
+    rw [isclose_iff_spec] at h
+    exact Proofs.C02.isclose_lat_eq D M hD hM tol ht h1 X Y lX lY bX bY t (h t)
+  · exact isclose_of_coefficients_equal tol ht X Y
+
+/-- **`is_hermitian(FermionOperator)` decides Hermiticity (executed function, real tolerance, no
+exactness hypothesis)**: lattice inputs `(1/D)ℤ[i]`, the two normal-ordered dictionaries have
+coefficients of magnitude `≤ M`, `tol·D·M ≤ 1` (e.g. `tol = 1e-8`, `D = 2^16`, `M = 2^10`). -/
+theorem is_hermitian_fermion_iff_tol_bounded (D M : Nat) (hD : 0 < D) (hM : 0 < M) (tol : Rat) (ht : 0 < tol)
+    (h1 : tol * ((D * M : Nat) : Rat) ≤ 1)
+    (a : Op) (wa : Dict.WF a) (hv : ∀ e ∈ a, ∀ f ∈ e.1, f.2 < 2) (la : ∀ e ∈ a, Proofs.C03.Lat D e.2)
+    (bX : ∀ t, (Dict.getD (C03.normalOrdered tol .fermion a) t 0).normSq ≤ (M : Rat) * M)
+    (bY : ∀ t, (Dict.getD (C03.normalOrdered tol .fermion (hcFermion a)) t 0).normSq ≤ (M : Rat) * M) :
+    isHermitianFermion tol a = true ↔ ∀ s out, Spec.melF a out s = (Spec.melF a s out).conj := by
+  have hd := Proofs.C02.tolD_le D M hM tol ht h1
+  have lh : ∀ e ∈ hcFermion a, Proofs.C03.Lat D e.2 := by
+    rw [Proofs.C03.hcFermion_eq_map a wa hv]
+    intro e he
+    obtain ⟨x, hx, rfl⟩ := List.mem_map.1 he
+    obtain ⟨m, n, h1', h2'⟩ := la x hx
+    exact ⟨m, -n, by simp [GQ.conj, h1'], by simp [GQ.conj, h2']; ring⟩
+  have sim := fun (b : Op) (lb : ∀ e ∈ b, Proofs.C03.Lat D e.2) =>
+    (Proofs.C03.normalOrdered_sim D hD tol (le_of_lt ht) hd .fermion (Proofs.C03.hk_fermion D)
+      (fun _ c hc => Proofs.C03.lat_mul_one D c hc) b lb).2.2.1
+  apply is_hermitian_fermion_iff_tol D hD tol ht hd a wa hv la
+  intro t h
+  exact Proofs.C02.isclose_lat_eq D M hD hM tol ht h1 _ _ (sim a la) (sim _ lh) bX bY t h
+
+/-- the same for `is_hermitian(BosonOperator)` (statement: `A` and its formal adjoint denote the
+same operator in the polynomial Spec). -/
+theorem is_hermitian_boson_iff_tol_bounded (D M : Nat) (hD : 0 < D) (hM : 0 < M) (tol : Rat) (ht : 0 < tol)
+    (h1 : tol * ((D * M : Nat) : Rat) ≤ 1)
+    (a : Op) (hv : ∀ e ∈ a, ∀ f ∈ e.1, f.2 < 2) (la : ∀ e ∈ a, Proofs.C03.Lat D e.2)
+    (bX : ∀ t, (Dict.getD (C03.normalOrdered tol .boson a) t 0).normSq ≤ (M : Rat) * M)
+    (bY : ∀ t, (Dict.getD (C03.normalOrdered tol .boson (hcBoson a)) t 0).normSq ≤ (M : Rat) * M) :
+    isHermitianBoson tol a = true ↔
+      ∀ s out, Proofs.C03.Trimmed s → Proofs.C03.Trimmed out →
+        Spec.GV.coeff (Spec.applyOp .boson a s) out =
+          Spec.GV.coeff (Spec.applyOp .boson (hcBoson a) s) out := by
+  have hd := Proofs.C02.tolD_le D M hM tol ht h1
+  have sim := fun (b : Op) (lb : ∀ e ∈ b, Proofs.C03.Lat D e.2) =>
+    (Proofs.C03.normalOrdered_sim D hD tol (le_of_lt ht) hd .boson (Proofs.C03.hk_boson D)
+      (fun _ c hc => Proofs.C03.lat_mul_one D c hc) b lb).2.2.1
+  apply is_hermitian_boson_iff_tol D hD tol ht hd a hv la
+  intro t h
+  exact Proofs.C02.isclose_lat_eq D M hD hM tol ht h1 _ _ (sim a la)
+    (sim _ (Proofs.C02.hcBoson_lat D a la)) bX bY t h
+
+-- non-vacuity: EQ_TOLERANCE with D = 2^16, M = 2^10
+example : Generated.eqTolerance * ((2 ^ 16 * 2 ^ 10 : Nat) : Rat) ≤ 1 := by
+  norm_num [Generated.eqTolerance]
 
 /-! ## `is_hermitian(QubitOperator)` — Pauli strings are Hermitian and linearly independent -/
 
